@@ -609,13 +609,259 @@ class C01(Prop):
         return out
 
 
-class C02(Prop):
+# =========================================================================== kva: password / salt / key-relation families
+# (shared by C02 and C06)
+KVA_PW_EDGES = [0, 1, 31, 32, 33, 63, 64, 65, 127, 128, 129, 255, 256, 257, 511, 512, 513, 1000, 1023, 1024, 1025,
+                2047, 2048, 2049, 4095, 4096, 4097, 5000]
+
+
+def kva_hmac_image(pw):
+    """RFC 2104 key block of a password: the ONLY thing PBKDF2-HMAC-SHA256 (hence scrypt) sees of it.  Two passwords
+    with the same image are the genuine equivalence of the known finding hmac-key-hashing (Proofs/PasswordEquiv.v)."""
+    import hashlib
+    k = hashlib.sha256(pw).digest() if len(pw) > 64 else pw
+    return k + bytes(64 - len(k))
+
+
+def kva_password(ctx, n, style=None):
+    """a password of exactly n bytes; the last byte is never 0 (so that no generated pair is related by zero padding)"""
+    rng = ctx.rng
+    style = style or rng.choice(["bin", "bin0", "ascii", "utf8", "const", "period"])
+    if n == 0:
+        return b""
+    if style == "bin":
+        b = bytes(rng.randrange(1, 256) for _ in range(n))
+    elif style == "bin0":          # zero bytes anywhere but at the end
+        b = bytes(rng.choice([0, 0, rng.randrange(256)]) for _ in range(n - 1)) + bytes([rng.randrange(1, 256)])
+    elif style == "ascii":
+        b = bytes(rng.choice(b"abcdefghijklmnopqrstuvwxyzABCDEFGHIJKLMNOPQRSTUVWXYZ0123456789 -_.,!?") for _ in range(n))
+        if b[-1:] == b" ":
+            b = b[:-1] + b"z"
+    elif style == "utf8":          # multi-byte text, padded with ASCII to the exact byte length
+        s = b""
+        while len(s) + 4 <= n:
+            s += rng.choice(["ä", "ß", "ж", "中", "✓", "\U0001f511", "é", "ש"]).encode()
+        b = s[:n] if len(s) >= n else s + b"q" * (n - len(s))
+    elif style == "const":         # one repeated byte: every prefix is a password of the same family
+        b = bytes([rng.randrange(1, 256)]) * n
+    else:                          # short period: positions k and k + period carry the same byte
+        per = bytes(rng.randrange(1, 256) for _ in range(rng.choice([2, 3, 7, 16, 64])))
+        b = (per * (n // len(per) + 1))[:n]
+    assert len(b) == n
+    return b
+
+
+def kva_other_passwords(ctx, pw, full):
+    """DIFFERENT passwords close to pw, none of them equivalent to pw under RFC 2104 key normalisation:
+    differing only in the last byte / only beyond a power-of-two boundary, proper prefixes (also at every power-of-two
+    length), extensions, one interior byte, case of a letter, swapped halves, the password doubled"""
+    rng = ctx.rng
+    n = len(pw)
+
+    def other(x):                  # a different non-zero byte
+        y = rng.randrange(1, 256)
+        while y == x:
+            y = rng.randrange(1, 256)
+        return bytes([y])
+    cands = []
+    cands.append(("extended", pw + other(0)))
+    cands.append(("extended-long", pw + kva_password(ctx, rng.choice([1, 63, 64, 65, 200]), "bin")))
+    if n >= 1:
+        cands.append(("last-byte", pw[:-1] + other(pw[-1])))
+        cands.append(("first-byte", other(pw[0]) + pw[1:]))
+        cands.append(("minus-last", pw[:-1]))
+        i = rng.randrange(n)
+        cands.append(("byte@%d" % i, pw[:i] + other(pw[i]) + pw[i + 1:]))
+        cands.append(("doubled", pw + pw))
+    if n >= 2:
+        cands.append(("swapped-halves", pw[n // 2:] + pw[:n // 2]))
+        cands.append(("reversed", pw[::-1]))
+    k = 16
+    while k < n:
+        # identical on the first k bytes, different somewhere after
+        j = rng.randrange(k, n)
+        cands.append(("tail-after-%d" % k, pw[:j] + other(pw[j]) + pw[j + 1:]))
+        cands.append(("prefix-%d" % k, pw[:k]))
+        k *= 2
+    letters = [i for i, x in enumerate(pw) if 65 <= (x & 0xdf) <= 90 and x < 128]
+    if letters:
+        i = rng.choice(letters)
+        cands.append(("case@%d" % i, pw[:i] + bytes([pw[i] ^ 0x20]) + pw[i + 1:]))
+    img = kva_hmac_image(pw)
+    good, seen = [], {pw}
+    for lab, w in cands:
+        if w in seen or kva_hmac_image(w) == img:
+            continue
+        if len(w) <= 64 and w[-1:] == b"\x00":
+            continue
+        seen.add(w)
+        good.append((lab, w))
+    if full and n <= 300:
+        return good
+    must = [x for x in good if x[0] in ("last-byte", "extended")]
+    rest = [x for x in good if x[0] not in ("last-byte", "extended")]
+    return must + rng.sample(rest, min(len(rest), 4 if full else 1))
+
+
+def kva_special_salts(ctx, full):
+    """32-byte salts of special shapes: the property quantifies over ALL salts, a CSPRNG never produces these"""
+    rng = ctx.rng
+    c = rng.randrange(1, 255)
+    fixed = [("zero", bytes(32)), ("ff", b"\xff" * 32), ("const-%02x" % c, bytes([c]) * 32), ("ascending", bytes(range(32)))]
+    more = [("descending", bytes(range(255, 223, -1))), ("alternating", b"\x00\xff" * 16), ("first-only", b"\x01" + bytes(31)),
+            ("last-only", bytes(31) + b"\x80"), ("ascii", b"0123456789abcdef0123456789abcdef"), ("magic", b"egk\x20" * 8),
+            ("newlines", b"\r\n" * 16), ("half-zero", ctx.rbytes(16) + bytes(16)), ("const-20", b" " * 32),
+            ("const-0a", b"\n" * 32), ("period-2", bytes([rng.randrange(256), rng.randrange(256)]) * 16)]
+    return fixed + (more if full else rng.sample(more, 2))
+
+
+def kva_reject(what):
+    def f(res):
+        if res["code"] == 0:
+            return ("a different password is rejected (%s)" % what, "ok |out|=%d" % len(res["out"]))
+        if res["code"] == 1 or res["code"] >= 900:
+            return ("a wrong password is an error value, never a panic/abort", res["outcome"])
+        if res["out"]:
+            return ("a rejected password releases no plaintext (%s)" % what, "out=" + res["out"][:32].hex())
+        return None
+    return f
+
+
+def kva_ref_kdf(pw, salt):
+    """scrypt(pw, salt, 32768, 8, 1, 32) by OpenSSL (the reference C18 names); None when unavailable"""
+    import hashlib
+    if not hasattr(hashlib, "scrypt"):
+        return None
+    try:
+        return hashlib.scrypt(pw, salt=salt, n=32768, r=8, p=1, dklen=32, maxmem=2 ** 31 - 1)
+    except Exception:
+        return None
+
+
+class KvaRefKdf:
+    """mix-in: the production-parameter scrypt values the model needs (Run/RunLib.v kdf_table) come from the RFC 7914
+    reference (OpenSSL via hashlib, validated on the RFC vectors by C18) instead of from the implementation under
+    test, so that a change of the key derivation applied to BOTH directions (truncated / folded / re-encoded password,
+    altered salt, ...) shows as a model-vs-implementation difference on the file bytes.  Falls back to the
+    implementation's own values when no reference scrypt is available."""
+
+    KDF_BATCH_BYTES = 100000
+
+    def run_cases(self, ctx, cases, model=True):
+        # the table is written into every generated case file: keep it small by evaluating the cases in batches
+        # whose distinct (password, salt) pairs total at most KDF_BATCH_BYTES bytes (one batch in a quick run)
+        batches, cur, size, seen = [], [], 0, set()
+        for c in cases:
+            add = sum(len(pw) + 32 for pw, salt in c.kdf_need() if (pw, salt) not in seen)
+            if cur and model and size + add > self.KDF_BATCH_BYTES:
+                batches.append(cur)
+                cur, size, seen = [], 0, set()
+                add = sum(len(pw) + 32 for pw, salt in c.kdf_need())
+            seen.update(c.kdf_need())
+            cur.append(c)
+            size += add
+        if cur:
+            batches.append(cur)
+        for b in batches:
+            self.kva_run_batch(ctx, b, model)
+
+    def kva_run_batch(self, ctx, cases, model):
+        orig = vlib.kdf_table
+
+        def table(binp, cs):
+            need, seen = [], set()
+            for c in cs:
+                for pw, salt in c.kdf_need():
+                    if (pw, salt) not in seen:
+                        seen.add((pw, salt))
+                        need.append((pw, salt))
+            tab = []
+            with vlib.ThreadPoolExecutor(max_workers=max(1, min(4, vlib.NPROC))) as ex:
+                keys = list(ex.map(lambda ps: kva_ref_kdf(*ps), need))
+            if any(k is None for k in keys):
+                ctx.distribution["kdf-table:implementation"] = ctx.distribution.get("kdf-table:implementation", 0) + len(need)
+                return orig(binp, cs)
+            ctx.distribution["kdf-table:rfc7914-reference"] = ctx.distribution.get("kdf-table:rfc7914-reference", 0) + len(need)
+            return [(pw, salt, k) for (pw, salt), k in zip(need, keys)]
+        vlib.kdf_table = table
+        try:
+            return super().run_cases(ctx, cases, model)
+        finally:
+            vlib.kdf_table = orig
+
+
+def kva_password_family_cases(ctx, full, others=True, n_lens=None):
+    """password-mode files over the LENGTH of the password (0 .. 5000 bytes, both sides of 64/128/256/.. and of the
+    HMAC block) and its content style, and over special SALTS; each file is decrypted with its own password
+    (round trip) and - when others - with close but different passwords (must be refused, nothing released)"""
+    rng = ctx.rng
+    if full:
+        lens = list(KVA_PW_EDGES) + [rng.randrange(66, 6000) for _ in range(8)]
+    else:
+        lens = [65, 129, 257] + rng.sample([127, 128, 255, 256], 2) + rng.sample([0, 1, 31, 32, 33, 63, 64], 2) \
+            + rng.sample([511, 512, 513, 1000, 1023, 1024, 1025, 2047, 2048, 2049, 4095, 4096], 2) \
+            + [rng.randrange(66, 6000), rng.choice([4097, 5000])]
+        if n_lens:
+            lens = lens[:3] + rng.sample(lens[3:], max(0, n_lens - 3))
+    encs = []
+    for n in lens:
+        pw = kva_password(ctx, n)
+        P = ctx.rbytes(rng.choice([0, 1, 17, 40]))
+        encs.append((P, Case("pass_enc", pw=pw, salt=ctx.rbytes(32), data=P, rs=rng.choice(["-", "c1", "c7,c64"]),
+                             oracle=ok_only("password encryption succeeds for a %d-byte password" % n),
+                             tags=["enc", "pwlen=%d" % n, "password-length"])))
+    for lab, salt in kva_special_salts(ctx, full):
+        pw = rng.choice([b"", b"hackme", kva_password(ctx, rng.choice([5, 20, 70, 300]))])
+        P = ctx.rbytes(rng.choice([0, 1, 33]))
+        encs.append((P, Case("pass_enc", pw=pw, salt=salt, data=P, oracle=ok_only("password encryption succeeds with salt " + lab),
+                             tags=["enc", "salt=" + lab.split("-")[0], "special-salt"])))
+    vlib.run_impl(ctx.bin, [c for _, c in encs])
+    out = []
+    for P, c in encs:
+        out.append(c)
+        if c.result["code"] != 0:
+            continue
+        F = c.result["out"]
+        what = [t for t in c.tags if t.startswith("pwlen=") or t.startswith("salt=")][0]
+        out.append(Case("pass_dec", pw=c.a["pw"], data=F, rs=rng.choice(["-", "c1,c1,c1,c1,c1", "c36,c16,c1"]),
+                        oracle=ok_eq(P, "password round trip (%s)" % what), tags=["dec", c.tags[-1]]))
+        if others and "password-length" in c.tags:
+            for lab, w in kva_other_passwords(ctx, c.a["pw"], full):
+                out.append(Case("pass_dec", pw=w, data=F, oracle=kva_reject("%s, other=%s" % (what, lab)),
+                                tags=["wrong-password", "other=" + lab.split("-")[0].split("@")[0]]))
+        elif others and full:
+            w = c.a["pw"] + b"x"
+            out.append(Case("pass_dec", pw=w, data=F, oracle=kva_reject(what), tags=["wrong-password"]))
+    return out
+
+
+def kva_reference_pass_file(ctx, pw, salt, P, cs, rs="-"):
+    """An INDEPENDENT writer of the documented password-file format: magic, salt, then the chunk stream under the
+    RFC 7914 reference key (OpenSSL) with the magic as additional data, with ANY chunk size 1..65536 and read
+    partition (chunkings the real encryptor never emits).  None when no reference scrypt is available."""
+    key = kva_ref_kdf(pw, salt)
+    if key is None:
+        return None
+    magic = bytes([0x65, 0x67, 0x6b, 0x20])
+    body = Case("enc_chunks", key=key, aad=magic, cs=cs, data=P, rs=rs)
+    vlib.run_impl(ctx.bin, [body])
+    if body.result["code"] != 0:
+        return None
+    return magic + salt + body.result["out"]
+
+
+class C02(KvaRefKdf, Prop):
     id = "C02"
     rule = ("cases: password-mode encryptions (7 passwords incl. empty, non-ASCII, >64 bytes; random salts; lengths "
             "0,1,65537 (+65535,65536,2 chunks)) decrypted with the same password under other schedules, and every file "
-            "decrypted with every OTHER password (must fail, nothing released); non-trivial = all")
-    assumptions = ["scrypt at N=32768 is not evaluated in Coq: the model takes the derived key from a table the harness "
-                   "fills by calling the implementation's scrypt with the documented constants (C18 ties that scrypt to RFC 7914)",
+            "decrypted with every OTHER password (must fail, nothing released); passwords of 0..5000 bytes on both sides "
+            "of 64/128/256/512/1024/.. in six content styles, each file also tried with close passwords (last byte, "
+            "bytes beyond every power-of-two boundary, prefixes, extensions, case, halves swapped) that are NOT related "
+            "by RFC 2104 key normalisation; special salts (all-zero, all-0xff, constant byte, ascending, ..) round-tripped; "
+            "non-trivial = all")
+    assumptions = ["scrypt at N=32768 is not evaluated in Coq: the model takes the derived key from a table filled with "
+                   "the RFC 7914 reference value (OpenSSL's scrypt through hashlib, the reference of C18; the "
+                   "implementation's own scrypt only if no reference is available)",
                    "wrong-password rejection is proved under the no-forgery-in-run premise"]
 
     def cases(self, ctx):
@@ -653,7 +899,9 @@ class C02(Prop):
             out.append(enc)
             out.append(Case("pass_dec", pw=hashlib.sha256(longpw).digest(), data=enc.result["out"], oracle=orc2,
                             tags=["digest-of-long-password"]))
-        return out + roundtrip_chunk_cases(ctx, False)[:120]
+        out = out + roundtrip_chunk_cases(ctx, False)[:120]
+        # password LENGTH / content families and special salts; close-but-different passwords must be refused
+        return out + kva_password_family_cases(ctx, ctx.thorough())
 
 
 def frozen_corpus_cases(ctx):
@@ -686,14 +934,91 @@ def frozen_corpus_cases(ctx):
     return out
 
 
-class C06(Prop):
+def kva_key_relation_cases(ctx, full):
+    """key-mode files whose keys stand in a RELATION the format does not forbid and random keys never hit: sender ==
+    recipient (a file to oneself), ephemeral == sender static, ephemeral == recipient, all three equal, payload key
+    equal to a key / all-zero / all-0xff.  Noise X and the documented format put no constraint between these, so the
+    encryptor's bytes must be the reference's and the file must decrypt to its plaintext and sender."""
+    rng = ctx.rng
+    (a, A), (b, B), (e, E) = keypairs(ctx, 3)
+    rel = [("self", a, A, a, A, e, E, None), ("self", b, B, b, B, e, E, None),
+           ("self+eph", a, A, a, A, a, A, None), ("eph=sender", a, A, b, B, a, A, None),
+           ("eph=recipient", a, A, b, B, b, B, None), ("payload=recipient-key", a, A, b, B, e, E, B),
+           ("payload=sender-private", a, A, b, B, e, E, a), ("payload=zero", a, A, b, B, e, E, bytes(32)),
+           ("payload=ff", a, A, a, A, e, E, b"\xff" * 32)]
+    if not full:
+        rel = rel[:1] + rng.sample(rel[1:], 2)
+    encs = []
+    for lab, s, spk, r, rpk, ee, eepk, pk in rel:
+        n = rng.choice([0, 1, 20, 70])
+        P = ctx.rbytes(n)
+        rs = rng.choice(["-", "c1", "c3,c64", "c7"])
+        if rs != "-":
+            rs = ",".join([rs] * (n + 2))
+        encs.append((P, r, rpk, lab, Case("key_enc", s=s, spk=spk, r=rpk, e=ee, epk=eepk, pk=(pk if pk is not None else ctx.rbytes(32)),
+                                     data=P, rs=rs, oracle=ok_only("key encryption succeeds (%s)" % lab),
+                                     tags=["enc", "key-relation", "rel=" + lab.split("=")[0]])))
+    vlib.run_impl(ctx.bin, [c for _, _, _, _, c in encs])
+    out = []
+    for P, r, rpk, lab, c in encs:
+        out.append(c)
+        if c.result["code"] != 0:
+            continue
+
+        def orc(res, P=P, spk=c.a["spk"], lab=lab):
+            if res["code"] != 0 or res["out"] != P:
+                return ("a conforming key file decrypts to its plaintext (%s)" % lab, res["outcome"] + " |out|=%d" % len(res["out"]))
+            if res["extra"] != spk:
+                return ("and to its sender (%s)" % lab, "sender=" + res["extra"].hex())
+            return None
+        out.append(Case("key_dec", r=r, rpk=rpk, data=c.result["out"], rs=rng.choice(["-", "c1,c1,c1", "c4,c128,c16"]),
+                        oracle=orc, tags=["dec", "key-relation", c.tags[-1]]))
+    return out
+
+
+def kva_reference_pass_cases(ctx, full):
+    """password files written by the independent reference writer (kva_reference_pass_file): long passwords, special
+    salts, chunk sizes and partitions the encryptor never emits; every one must decrypt to its plaintext"""
+    rng = ctx.rng
+    out = []
+    salts = kva_special_salts(ctx, True)
+    plan = [(rng.choice([65, 127, 128, 129]), 1), (rng.choice([255, 256, 257, 300]), 7), (rng.choice([1000, 1025, 4097, 5000]), 65536),
+            (rng.choice([0, 1, 63, 64]), rng.randrange(2, 65536))]
+    if full:
+        plan += [(n, rng.choice([1, 2, 100, 65535, 65536])) for n in KVA_PW_EDGES]
+    for i, (n, cs) in enumerate(plan):
+        pw = kva_password(ctx, n)
+        lab, salt = rng.choice(salts) if i % 2 else ("random", ctx.rbytes(32))
+        P = ctx.rbytes(rng.choice([0, 1, 9, 30]))
+        parts = []
+        left = len(P)
+        while left > 0:
+            k = rng.randrange(1, min(cs, left) + 1)
+            parts.append(k)
+            left -= k
+        F = kva_reference_pass_file(ctx, pw, salt, P, cs, script_of(parts))
+        if F is None:
+            continue
+        out.append(Case("pass_dec", pw=pw, data=F, rs=rng.choice(["-", "c1,c1,c1,c1", "c36,c3,c50"]),
+                        oracle=ok_eq(P, "a conforming password file (pwlen=%d, salt %s, %d chunks) decrypts" % (n, lab, len(parts))),
+                        tags=["reference-writer", "pwlen=%d" % n, "salt=" + lab.split("-")[0]]))
+    return out
+
+
+class C06(KvaRefKdf, Prop):
     id = "C06"
     model_is_reference = True
     rule = ("cases: exact output bytes of key/password encryption (injected ephemeral, payload key, salt) compared with "
             "the Gallina transcription of the documented format over the RFC specifications, under all read partitions "
             "at small chunk sizes and selected schedules at 65536; Noise-AEAD nonce layout at counters across the 64-bit "
-            "range; handshake/HKDF components; non-trivial = all")
-    assumptions = ["the Gallina RFC specifications are validated by the RFCs' own test vectors (Spec/*Kat.v)"]
+            "range; handshake/HKDF components; password files over password lengths 0..5000 (both sides of 64/128/256/..), "
+            "content styles and special salts, with the model's scrypt value taken from the RFC 7914 reference; "
+            "reference-written password files in chunkings the encryptor never emits; key files with related keys "
+            "(sender == recipient, ephemeral == static, special payload keys); frozen files incl. long passwords, "
+            "special salts and self-addressed key files; non-trivial = all")
+    assumptions = ["the Gallina RFC specifications are validated by the RFCs' own test vectors (Spec/*Kat.v)",
+                   "scrypt at N=32768 is not evaluated in Coq: the model's value is OpenSSL's (hashlib.scrypt), the "
+                   "reference C18 names"]
 
     def cases(self, ctx):
         rng = ctx.rng
@@ -711,6 +1036,11 @@ class C06(Prop):
             out.append(Case("noise_enc", s=s, spk=spk, r=rpk, e=e, epk=epk, prologue=bytes([0x65, 0x67, 0x6b, 0x10]),
                             payload=ctx.rbytes(32), tags=["noise"]))
             out.append(Case("hkdfn", ck=ctx.rbytes(32), ikm=ctx.rbytes(rng.choice([0, 32])), tags=["hkdfn"]))
+        # password length / content / salt families against the reference (the model's scrypt values are the RFC 7914
+        # reference's, see KvaRefKdf), reference-written password files, key files with related keys
+        out += kva_password_family_cases(ctx, ctx.thorough(), others=False, n_lens=6)
+        out += kva_reference_pass_cases(ctx, ctx.thorough())
+        out += kva_key_relation_cases(ctx, ctx.thorough())
         return out
 
 
